@@ -221,7 +221,12 @@ def run_cfg(ctx, p, cfg):
             leaf = [(si, al) for sb, si, al in a.conditions(c.block) if strip(si.discr)[0] == "call" and strip(si.discr)[1] == "core::str::<impl str>::is_empty"]
             r.require(len(leaf) == 1 and {leaf[0][0].label(v) for v, _ in leaf[0][1]} == {True}, "only-for-the-leaf", fn=a, site=c.at, detail="extension happens when the remaining path is empty")
 
-    with ctx.rule("R4", "inheritance shape", cfg) as r:
+    rule_inheritance_shape(ctx, p, cfg, "R4")
+    run_cfg_after_r4(ctx, p, cfg)
+
+
+def rule_inheritance_shape(ctx, p, cfg, rid="R4"):
+    with ctx.rule(rid, "inheritance shape", cfg) as r:
         ro = anchors.routing(p)
         a = ro["add"]
         pos = add_params(p, ro)
@@ -247,6 +252,8 @@ def run_cfg(ctx, p, cfg):
             av = dict(raw[3]).get(apps)
             r.require(any(x[0] == "call" and x[1] == "core::clone::Clone::clone" for x in walk(av)), "intermediate-clones-appenders", fn=a, detail="appenders: %s" % show(av, 4))
 
+
+def run_cfg_after_r4(ctx, p, cfg):
     with ctx.rule("R5", "longest-prefix walk", cfg) as r:
         ro = anchors.routing(p)
         f = ro["find"]
